@@ -282,12 +282,18 @@ def setup_lines(sc):
     return lines
 
 
+def mpool(pool):
+    """pool number for the model (a natural number): a negative number is just another pool that does not exist"""
+    return pool if pool >= 0 else 1000000 - pool
+
+
 def step_line(sc, st, q):
     if st[0] == "assign":
         _, pool, cpu, ram, prio, refs = st
+        pool = mpool(pool)
         return f"assign {pool} {cpu} {to_q(ram, q)} {prio} {','.join(f'{p}:{o}' for p, o in refs) if refs else '-'}"
     if st[0] == "suspend":
-        return f"suspend {st[1]} {st[2]}"
+        return f"suspend {mpool(st[1])} {st[2]}"
     return "tick"
 
 
